@@ -244,7 +244,7 @@ class Fn(Val):
         self.defcls = defcls
 
     def name(self):
-        if self.fkind in ('repo',):
+        if self.fkind in ('repo', 'closure'):
             return self.ref.qualname
         if self.fkind == 'class':
             return self.ref.qualname
@@ -482,6 +482,17 @@ def lib_length(t: 'Term') -> Optional[Rat]:
             return _len_of(arg('a', 0) if arg('a', 0) is not None else arg('x', 0))
         elif h in ('stored', 'loopstate', 'mutated'):
             return _len_of(t.args[0])
+        elif h == 'cat':
+            tot = C(0)
+            for part in t.args:
+                if isinstance(part, Num) and part.length is None:
+                    tot = tot + C(1)
+                    continue
+                ln = _len_of(part)
+                if ln is None:
+                    return None
+                tot = tot + ln
+            return tot
     except Exception:
         return None
     return None
